@@ -2,6 +2,8 @@ import SvModel.Core.Tree
 import SvModel.Core.Peg
 import SvModel.Gen.Grammar
 import SvModel.Gen.Names
+import SvModel.Core.Pp
+import SvModel.Gen.PpKinds
 /-!
 Line-protocol driver for the executable models (`svmodel`). One request per line on stdin, one
 canonical response per line on stdout. Used by the correspondence checks (`bin/check`).
@@ -28,7 +30,7 @@ def fnvStep (h : UInt64) (x : Nat) : UInt64 := (h ^^^ (UInt64.ofNat x)) * 109951
 mutual
 partial def skelHash (h : UInt64) : Tree → UInt64
   | .leaf o l n => fnvStep (fnvStep (fnvStep (fnvStep h 1) o) l) n
-  | .node k ks => fnvStep (skelHashL (fnvStep (fnvStep h 2) k) ks) 3
+  | .node k ks => fnvStep (skelHashL (fnvStep (fnvStep h 2) (k % 2048)) ks) 3
 partial def skelHashL (h : UInt64) : List Tree → UInt64
   | [] => h
   | t :: ts => skelHashL (skelHash h t) ts
@@ -37,7 +39,7 @@ end
 mutual
 partial def skelStr : Tree → String
   | .leaf o l n => s!"L{o},{l},{n} "
-  | .node k ks => s!"({kindNames.getD k "?"} " ++ skelStrL ks ++ ") "
+  | .node k ks => s!"({kindNames.getD (k % 2048) "?"} " ++ skelStrL ks ++ ") "
 partial def skelStrL : List Tree → String
   | [] => ""
   | t :: ts => skelStr t ++ skelStrL ts
@@ -126,6 +128,121 @@ def doC16 (ws : String) (toks : List String) : String :=
     let eh := ev.foldl evHash 14695981039346656037
     s!"{ih} {it.length} {eh} {ev.length} {rangeStr (getStrRange it)} {rangeStr (getStrTrimRange (ws.toNat?.getD 0) ev)}"
 
+/-! ### preprocessor model -/
+
+def hexOfBytes (b : Bytes) : String :=
+  let hexd (n : Nat) : Char := if n < 10 then Char.ofNat (48 + n) else Char.ofNat (87 + n)
+  String.ofList (b.foldr (fun x acc => hexd (x / 16) :: hexd (x % 16) :: acc) [])
+
+def bytesOfHex (s : String) : Bytes := if s == "-" then [] else (unhex s).toList.map (·.toNat)
+
+def splitNE (s : String) (sep : String) : List String := if s == "-" || s == "" then [] else s.splitOn sep
+
+partial def errStr : PpError → String
+  | .file p => s!"File({hexOfBytes p})"
+  | .readUtf8 p => s!"ReadUtf8({hexOfBytes p})"
+  | .include e => s!"Include[{errStr e}]"
+  | .preprocess none => "Preprocess(None)"
+  | .preprocess (some (p, o)) => s!"Preprocess({hexOfBytes p}:{o})"
+  | .defineArgNotFound x => s!"DefineArgNotFound({hexOfBytes x})"
+  | .defineNotFound x => s!"DefineNotFound({hexOfBytes x})"
+  | .defineNoArgs x => s!"DefineNoArgs({hexOfBytes x})"
+  | .exceedRecursiveLimit => "ExceedRecursiveLimit"
+  | .includeLine => "IncludeLine"
+  | .oof => "oof"
+
+/-- `name:N` | `name:D:<arg[~default],…|->:<text|->` (hex fields) -/
+def parseDefines (s : String) : Defines :=
+  (splitNE s ";").filterMap (fun e =>
+    match e.splitOn ":" with
+    | [n, "N"] => some (bytesOfHex n, none)
+    | [n, "D", args, text] =>
+      let al := (splitNE args ",").map (fun a =>
+        match a.splitOn "~" with
+        | [x, d] => (bytesOfHex x, some (bytesOfHex d))
+        | _ => (bytesOfHex a, none))
+      let t : Option DefineText := if text == "-" then none else some { text := bytesOfHex (text.drop 1).toString, origin := none }
+      some (bytesOfHex n, some { ident := bytesOfHex n, args := al, text := t })
+    | _ => none)
+
+def parseFs (s : String) : Fs :=
+  (splitNE s ";").filterMap (fun e =>
+    match e.splitOn "=" with
+    | [p, "!"] => some (bytesOfHex p, none)
+    | [p, c] => some (bytesOfHex p, some (bytesOfHex (c.drop 1).toString))
+    | _ => none)
+
+def insertSorted (x : String) : List String → List String
+  | [] => [x]
+  | y :: ys => if x ≤ y then x :: y :: ys else y :: insertSorted x ys
+
+def definesStr (d : Defines) : String :=
+  let items := d.map (fun (kv : Bytes × Option Define) =>
+    match kv.2 with
+    | none => s!"{hexOfBytes kv.1}=N"
+    | some df =>
+      let args := String.intercalate "," (df.args.map (fun a =>
+        match a.2 with | some dd => s!"{hexOfBytes a.1}~{hexOfBytes dd}" | none => hexOfBytes a.1))
+      let t := match df.text with
+        | none => "-"
+        | some dt =>
+          let o := match dt.origin with
+            | none => "-"
+            | some (p, r) => s!"{hexOfBytes p}@{r.b}-{r.e}"
+          s!"x{hexOfBytes dt.text}/{o}"
+      s!"{hexOfBytes kv.1}=D[{hexOfBytes df.ident}]({args}){t}")
+  String.intercalate ";" (items.foldl (fun acc x => insertSorted x acc) [])
+
+/-- run-length encoded `origin(pos)` for every output position -/
+def originsStr (o : POut) : String := Id.run do
+  let n := o.text.length
+  let mut out : List String := []
+  let mut start := 0
+  let mut cur : Option (Option (Bytes × Nat)) := none   -- origin at `start`
+  let mut len := 0
+  for pos in [0:n] do
+    let og := o.origin pos
+    let cont : Bool :=
+      match cur, og with
+      | some none, none => true
+      | some (some (p, s0)), some (p2, s2) => p == p2 && s2 == s0 + len
+      | _, _ => false
+    if cont then len := len + 1
+    else
+      if let some c := cur then
+        out := (match c with
+          | none => s!"{start}+{len}:-"
+          | some (p, s0) => s!"{start}+{len}:{hexOfBytes p}@{s0}") :: out
+      start := pos; cur := some og; len := 1
+  if let some c := cur then
+    out := (match c with
+      | none => s!"{start}+{len}:-"
+      | some (p, s0) => s!"{start}+{len}:{hexOfBytes p}@{s0}") :: out
+  return String.intercalate "," out.reverse
+
+def doPp (args : List String) : String :=
+  match args with
+  | [strip, ignore, path, text, defs, incs, fs] =>
+    let C : Cfg := { K := ppKinds, g := grammar, fs := parseFs fs, includePaths := (splitNE incs ",").map bytesOfHex }
+    let r := preprocessStr C 100000000 (bytesOfHex text) (bytesOfHex path) (parseDefines defs) (ignore == "1") (strip == "1") 0 0
+    match r with
+    | .error e => s!"err {errStr e}"
+    | .ok (o, d) => s!"ok {if o.text.isEmpty then "-" else hexOfBytes o.text} [{originsStr o}] [{definesStr d}]"
+  | _ => "bad-args"
+
+def doPpFile (args : List String) : String :=
+  match args with
+  | [strip, ignore, path, defs, incs, fs] =>
+    let C : Cfg := { K := ppKinds, g := grammar, fs := parseFs fs, includePaths := (splitNE incs ",").map bytesOfHex }
+    let r := preprocessInner C 100000000 (bytesOfHex path) (parseDefines defs) (strip == "1") (ignore == "1") 0
+    match r with
+    | .error e => s!"err {errStr e}"
+    | .ok (o, d) => s!"ok {if o.text.isEmpty then "-" else hexOfBytes o.text} [{originsStr o}] [{definesStr d}]"
+  | _ => "bad-args"
+
+def doSplit (hex : String) : String :=
+  String.intercalate "," ((splitText (bytesOfHex hex)).map (fun c => if c.isEmpty then "-" else hexOfBytes c))
+
 def step (line : String) : String :=
   match line.trimAscii.toString.splitOn " " with
   | ["parse", start, cap, hex] => doParse false start cap hex
@@ -133,6 +250,10 @@ def step (line : String) : String :=
   | ["parsev", start, cap, hex] => doParse true start cap hex
   | ["parsev", start, cap] => doParse true start cap ""
   | "c16" :: ws :: toks => doC16 ws toks
+  | "pp" :: rest => doPp rest
+  | "ppfile" :: rest => doPpFile rest
+  | ["split", hex] => doSplit hex
+  | ["split"] => doSplit "-"
   | _ => "bad-op"
 
 partial def loop (h : IO.FS.Stream) (out : IO.FS.Stream) : IO Unit := do
